@@ -33,9 +33,11 @@ func verifOp20(f *verifMgr, op int, chids [2]datatransfer.ChannelID, label strin
 	other := peer.ID("third")
 	switch op {
 	case 0:
-		_, _ = m.OpenPushDataChannel(ctx, other, tv, zz.CidFromAtom("b2"), zz.Node(label+".sel"))
+		_, _ = m.OpenPushDataChannel(ctx, other, tv, zz.CidFromAtom("b2"), zz.Node(label+".sel"),
+			datatransfer.WithSubscriber(func(datatransfer.Event, datatransfer.ChannelState) {}))
 	case 1:
-		_, _ = m.OpenPullDataChannel(ctx, other, tv, zz.CidFromAtom("b2"), zz.Node(label+".sel"))
+		_, _ = m.OpenPullDataChannel(ctx, other, tv, zz.CidFromAtom("b2"), zz.Node(label+".sel"),
+			datatransfer.WithSubscriber(func(datatransfer.Event, datatransfer.ChannelState) {}))
 	case 2:
 		_ = m.CloseDataTransferChannel(ctx, chid)
 	case 3:
@@ -183,3 +185,10 @@ func VerifC20_ReentrantSubscriber() {
 	zz.Settle()
 	zz.Reach("outer call returned")
 }
+
+// VerifC20_ConcurrentAPIDeep: the same two concurrent operations with a larger scheduling budget
+// (more interleavings of the lock operations: lock-order inversions need specific ones).
+//
+//verif:tier thorough
+//verif:opts race preempt=sync sched=6 part0=8 part1=2 novalidate
+func VerifC20_ConcurrentAPIDeep() { verifConcurrent20(2) }
